@@ -49,19 +49,36 @@ def one_trace(seed, steps):
             act = rng.choice(["write_dataset", "write_array", "write_array", "open_setitem"] if exists else ["write_dataset", "write_array", "write_array"])
             fmt = rng.choice(["NETCDF4", "NETCDF4", "NETCDF3_CLASSIC"])
             if act == "write_dataset":
-                strfree = fmt != "NETCDF4"
+                mode = rng.choice(["w", "w", "a", "a+"])      # (not w-: see spec/NcStore.tla)
+                fresh = mode == "w" or (mode in ("w-", "a+") and not exists)
+                eff_fmt = fmt if fresh else fmt_now
+                strfree = eff_fmt is not None and eff_fmt != "NETCDF4"
                 arrs = []
-                for _k in range(rng.choice([0, 1, 2, 3])):
+                skip = False
+                for key in "abc"[:rng.choice([0, 1, 2, 3])]:
                     base += 100
-                    arrs.append(rand_array(rng, base, strfree))
+                    a = rand_array(rng, base, strfree)
+                    if not fresh and key in varinfo:       # overwriting needs the same dims and dtype
+                        tries = 0
+                        while (a["dims"], a["dtype"]) != varinfo[key] and tries < 50:
+                            a = rand_array(rng, base, strfree)
+                            tries += 1
+                        if (a["dims"], a["dtype"]) != varinfo[key]:
+                            skip = True
+                    arrs.append(a)
+                if skip:
+                    continue
                 g = rng.choice([0, 9])
-                args = dict(arrs=arrs, fmt=fmt, g=g, k="", mode="")
+                args = dict(arrs=arrs, fmt=fmt, g=g, k="", mode=mode)
                 ds = A.Dataset()
                 for k, a in zip("abc", arrs):
                     ds[k] = N.gamma(a, codec)
                 ds.attrs.update(N.attrs_enc(g))
-                call = lambda: ds.write_nc(fn, mode="w", format=fmt)
-                new_fmt, new_vars = fmt, {k: (a["dims"], a["dtype"]) for k, a in zip("abc", arrs)}
+                call = lambda: ds.write_nc(fn, mode=mode, format=fmt)
+                if fresh:
+                    new_fmt, new_vars = fmt, {k: (a["dims"], a["dtype"]) for k, a in zip("abc", arrs)}
+                else:
+                    new_fmt, new_vars = fmt_now, dict(varinfo, **{k: (a["dims"], a["dtype"]) for k, a in zip("abc", arrs)})
             else:
                 mode = rng.choice(["w", "w-", "a", "a+"]) if act == "write_array" else "a"
                 fresh = mode == "w" or (mode in ("w-", "a+") and not exists)
